@@ -37,6 +37,11 @@ type c18Case struct {
 	// (what a crashed host or a load balancer with a dead target produces)
 	// instead of an orderly close
 	Reset bool `json:"connections_reset,omitempty"`
+	// Rebalance: the lost node runs with connection rebalancing enabled
+	Rebalance bool `json:"rebalance_enabled,omitempty"`
+	// LBLag: for a moment after the loss the balancer still accepts connections
+	// for the dead node and closes them (health-check lag) before it fails over
+	LBLag bool `json:"balancer_lag,omitempty"`
 }
 
 func freePorts(n int) []string {
@@ -67,10 +72,10 @@ type procNode struct {
 // startProc starts the subprocess node; the free ports are picked before the
 // process binds them, so a bind can lose a race with another socket: retried
 // with fresh ports.
-func startProc(id string, join []string, grace time.Duration) *procNode {
+func startProc(id string, join []string, grace time.Duration, extra ...string) *procNode {
 	var last string
 	for attempt := 0; attempt < 6; attempt++ {
-		n, out := tryStartProc(id, join, grace)
+		n, out := tryStartProc(id, join, grace, extra...)
 		if n != nil {
 			return n
 		}
@@ -83,7 +88,7 @@ func startProc(id string, join []string, grace time.Duration) *procNode {
 	return nil
 }
 
-func tryStartProc(id string, join []string, grace time.Duration) (*procNode, string) {
+func tryStartProc(id string, join []string, grace time.Duration, extra ...string) (*procNode, string) {
 	bin := os.Getenv("VERIF_PIKO_BIN")
 	if bin == "" {
 		evid.Fatal("VERIF_PIKO_BIN not set (the check script builds the piko binary)")
@@ -102,6 +107,7 @@ func tryStartProc(id string, join []string, grace time.Duration) (*procNode, str
 	for _, j := range join {
 		args = append(args, "--cluster.join", j)
 	}
+	args = append(args, extra...)
 	n.cmd = exec.Command(bin, args...)
 	n.cmd.Stdout = &n.out
 	n.cmd.Stderr = &n.out
@@ -152,6 +158,10 @@ type lb struct {
 	mu      sync.Mutex
 	conns   atomic.Int64
 	reset   atomic.Bool
+	// lag: after the first target stops answering the balancer keeps sending
+	// it new connections for this long, each of which it closes at once
+	lag       time.Duration
+	firstFail time.Time
 }
 
 func newLB(targets []string) *lb {
@@ -174,9 +184,20 @@ func newLB(targets []string) *lb {
 
 func (l *lb) handle(c net.Conn) {
 	defer c.Close()
-	for _, t := range l.targets {
+	for ti, t := range l.targets {
 		u, err := net.DialTimeout("tcp", t, 2*time.Second)
 		if err != nil {
+			if ti == 0 && l.lag > 0 {
+				l.mu.Lock()
+				if l.firstFail.IsZero() {
+					l.firstFail = time.Now()
+				}
+				lagging := time.Since(l.firstFail) < l.lag
+				l.mu.Unlock()
+				if lagging {
+					return // accepted, then closed: the health check has not caught up yet
+				}
+			}
 			continue
 		}
 		l.conns.Add(1)
@@ -214,12 +235,16 @@ func runC18(c c18Case) (sig, msg string) {
 		}
 	}
 	defer stopAll()
+	var extra []string
+	if c.Rebalance {
+		extra = []string{"--upstream.rebalance.threshold", "0.5"}
+	}
 	mut := func(cf *config.Config) {
 		cf.GracePeriod = 3 * time.Second
 		cf.Upstream.Auth = auth.Config{HMACSecretKey: string(e4.Keys().HMAC)}
 	}
 	if c.LostIsSeed {
-		lost = startProc("lostnode", nil, grace)
+		lost = startProc("lostnode", nil, grace, extra...)
 		for i := 0; i < 2; i++ {
 			s, err := e4.StartNode([]string{lost.Gossip}, mut)
 			if err != nil {
@@ -233,7 +258,7 @@ func runC18(c c18Case) (sig, msg string) {
 			return "start-failed", err.Error()
 		}
 		survivors = append(survivors, s0)
-		lost = startProc("lostnode", []string{s0.GossipAddr()}, grace)
+		lost = startProc("lostnode", []string{s0.GossipAddr()}, grace, extra...)
 		s1, err := e4.StartNode([]string{s0.GossipAddr()}, mut)
 		if err != nil {
 			return "start-failed", err.Error()
@@ -260,6 +285,9 @@ func runC18(c c18Case) (sig, msg string) {
 	balancer := newLB([]string{lost.Upstream, survivors[0].UpstreamAddr(), survivors[1].UpstreamAddr()})
 	defer balancer.ln.Close()
 	balancer.reset.Store(c.Reset)
+	if c.LBLag {
+		balancer.lag = 500 * time.Millisecond
+	}
 	var lns []*e4.StampListener
 	defer func() {
 		for _, l := range lns {
@@ -422,6 +450,12 @@ func init() {
 					if m == "kill" && ph != "idle" {
 						cases = append(cases, c18Case{LostIsSeed: seed, Phase: ph, Mode: m, Reset: true})
 					}
+					if ph == "upstreams" {
+						cases = append(cases, c18Case{LostIsSeed: seed, Phase: ph, Mode: m, LBLag: true})
+					}
+					if m == "graceful" && (ph == "upstreams" || ph == "idle") && !seed {
+						cases = append(cases, c18Case{LostIsSeed: seed, Phase: ph, Mode: m, Rebalance: true})
+					}
 				}
 			}
 		}
@@ -462,6 +496,20 @@ func init() {
 		}
 		close(ch)
 		wg.Wait()
+		// "stops advertising its upstreams" before it announces its departure, also
+		// when there are many upstream connections to deregister (sys_c18_many.go)
+		for _, k := range []int{1, 60} {
+			sig, msg := runC18ManyUpstreams(k)
+			if sig != "" {
+				if s2, _ := runC18ManyUpstreams(k); s2 != sig {
+					sig = ""
+				}
+			}
+			evals++
+			if sig != "" {
+				run.Violation("C18", sig, msg, map[string]any{"engine": "E4-C18", "many_upstreams": k})
+			}
+		}
 		// "announces its departure": the real Gossip.Leave for every subset of
 		// peers that died a moment ago (gossip-level, in memory)
 		lc, probs := gw.CheckLeaveAnnounced(8)
@@ -485,9 +533,14 @@ func init() {
 		var doc struct {
 			Replay struct {
 				Case c18Case `json:"case"`
+				Many int     `json:"many_upstreams"`
 			} `json:"replay"`
 		}
 		readJSON(path, &doc)
+		if doc.Replay.Many > 0 {
+			fmt.Println(runC18ManyUpstreams(doc.Replay.Many))
+			return 0
+		}
 		fmt.Println(runC18(doc.Replay.Case))
 		return 0
 	}
